@@ -26,7 +26,7 @@ def run(ctx):
     q = ctx.quick
     ctx.rule = ("TLC enumerates every valid configuration of SaveLoad.tla (4 model kinds x dimension 1-3 given or not x source "
                 "dimension unspecified / 0 / 1 / 2 x noise default / scalar / diagonal x named or default features x instance "
-                "name = kind or custom x origin fit or hand-written file: 792 configurations) and checks SurvivesSaveLoad on the "
+                "name = kind or custom x origin fit or hand-written file: 1980 configurations) and checks SurvivesSaveLoad on the "
                 "intended design and SurvivesExceptNamed on the as-built one (three named deviations); configurations are "
                 "executed on the real code (tiny fit, save, load, optional hand-edited file, re-save): population variables at "
                 "prior modes after the fit, derived values consistent with the saved parameters, load outcome, parameters / "
@@ -53,7 +53,7 @@ def run(ctx):
             if key not in seen:
                 seen.add(key)
                 pick.append(c)
-        cs = pick[:45]
+        cs = pick[:80]
     recs = [sl.run_case(c, rnd, tmp) for c in cs]
     for r in recs:
         ctx.case(key=tuple(r[k] for k in ("kind", "dim", "dimgiven", "src", "noise", "feats", "iname", "origin")))
